@@ -73,7 +73,9 @@ impl PartialEq for Value {
 
 impl Hash for Value {
     fn hash<H: Hasher>(&self, state: &mut H) {
-        core::mem::discriminant(self).hash(state);
+        // Booleans, Strings and Numbers can be equal to each other (`1 = '1'`, `true = 1`),
+        // so only Arrays may be told apart by their hash.
+        matches!(self, Value::Array(_)).hash(state);
     }
 }
 
